@@ -13,14 +13,14 @@ import itertools, os, json, time
 from concurrent.futures import ThreadPoolExecutor
 from vlib import *
 
-KINDS = "J0 JC JR JF JCF JRF FC RFE RFN CT XFE XFN PX GT FO DY RP PR FCV RFW JI JG JGF JA JAW".split()
+KINDS = "J0 JC JR JF JCF JRF FC RFE RFN CT XFE XFN PX GT FO DY RP PR FCV RFW JI JG JGF JA JAW FOT".split()
 JS_KINDS = {"J0", "JC", "JR", "JF", "JCF", "JRF", "JI", "JG", "JGF", "JA", "JAW"}
 SWALLOW = {"JC", "JCF", "JA"}         # JA: an async function absorbs the exception into its promise
 RETHROW = {"JR", "JRF", "FCV"}        # new *Exception (new stack), same value
 REWRAP = {"RFW"}                      # value replaced by a GoError around fmt.Errorf("%w", err)
 SPLIT = {"PR", "JAW"}                 # the rest of the chain runs as a promise job
 ENTRIES = ["RS", "CA", "EX"]
-VALS = "P1 P2 P3 P4 O1 R1 R2 R3 G1 G3 G4 G6 V1 V2 U1 U2".split()
+VALS = "P1 P2 P3 P4 O1 R1 R2 R3 G1 G3 G4 G6 V1 V2 U1 U2 U3".split()
 ERRS = "E1 C2 W3 J4 I5 WI6 JI7 S8 WS12".split()
 PAYLOADS = (["jt:" + v for v in VALS] + ["js:" + k for k in "TRGS"] + ["ji", "jo"] +
             ["np:" + v for v in "P1 O1 R1 G1 V1 U1".split()] + ["npn", "nr:N0"] + ["nr:" + e for e in ERRS] +
@@ -181,6 +181,13 @@ def spec_oracle(line, out):
     elif kind == "npn":
         if not swallow and not has_pr and not rewrap and host != "exc(new:TypeError)":
             bad.append(("native-typeerror:host", "host=%s" % host))
+    if "FOT" in chain:
+        # spec (IteratorClose with a throw completion): the original exception wins, i.e. FOT is transparent for the
+        # thrown value.  What fails only because ForOf lets return()'s exception replace it is one (known) defect.
+        flow = ("identity:", "goerror:", "sentinel:", "stack:", "native-typeerror:")
+        if any(c.startswith(flow) for c, _ in bad):
+            bad = [(c, m) for c, m in bad if not c.startswith(flow)] + \
+                  [("forof-return-replaces-exception", "; ".join("%s %s" % (c, m) for c, m in bad if c.startswith(flow))[:300])]
     return bad
 
 
@@ -309,8 +316,8 @@ def main(ctx):
     ctx.log("regenerated facts:", regen_ok)
     lean_ok, errs = ctx.lake_build(["GojaModel.C14.Props", "GojaModel.C14.Tie", "model_c14"])
     if lean_ok:
-        ctx.audit("GojaModel.C14.Props", expect_min=19)
-        ctx.audit("GojaModel.C14.Tie", expect_min=47)
+        ctx.audit("GojaModel.C14.Props", expect_min=20)
+        ctx.audit("GojaModel.C14.Tie", expect_min=40)
         if ctx.tier == "thorough":
             ctx.leanchecker("GojaModel.C14.Props")
     ctx.log("lean build + audit done:", lean_ok)
@@ -421,8 +428,9 @@ def main(ctx):
     ctx.stats.update({"host_outcomes": hosts, "payloads": payload_kinds, "depths": depth_hist, "frame_kinds": frame_hist,
                       "cases_with_catch_log": n_catch, "cases_with_finally_log": n_fin, "cases_with_rejection": n_rej})
 
-    # no unrepaired finding at present (joined-uncatchable: cbcbe34, Error() panic: fe5ea29 are fixed)
-    KNOWN_CLAUSES = {}
+    # known finding: Runtime.ForOf lets an exception thrown by the iterator's return() replace the original one
+    # (joined-uncatchable: cbcbe34 and Error() panic: fe5ea29 are fixed)
+    KNOWN_CLAUSES = {"forof-return-replaces-exception": "forof-return-replaces-exception"}
     KNOWN = {sig: KNOWN_CLAUSES[h[0][3]] for sig, h in by_sig.items() if h and h[0][3] in KNOWN_CLAUSES}
     # (a reproduced known finding is reported by ctx.violation as KNOWN-FINDING, it is not a broken obligation)
     ctx.obligation("oracle:property-holds-on-all-implementation-answers", "correspondence",
